@@ -378,8 +378,12 @@ pub fn scenarios(rng: &mut StdRng, quick: bool) -> Vec<Scenario> {
         "queue_and_readers",
         "queue_big_follower",
         "compact_while_parked",
+        "queue_wal_fault",
     ] {
         for (p, nth) in &writer_points {
+            if script == "queue_wal_fault" && *p != "write_before_wal" {
+                continue;
+            }
             let victims = vec![
                 Victim::Put { k: 2 },
                 Victim::Batch {
@@ -1074,7 +1078,8 @@ pub fn run_scenario(sc: &Scenario, seed: u64, run_no: u64) -> SchedOutcome {
     take_panics();
     sink.emit_json(
         "Reset",
-        json!({"run": run_no, "seed": seed, "nk": u.n(), "driver": "sched", "tag": sc.name}),
+        json!({"run": run_no, "seed": seed, "nk": u.n(), "driver": "sched", "tag": sc.name,
+               "faults": sc.script == "queue_wal_fault"}),
     );
     let opts = OptSet {
         memtable: sc.memtable,
@@ -1214,6 +1219,37 @@ pub fn run_scenario(sc: &Scenario, seed: u64, run_no: u64) -> SchedOutcome {
                     hang("reader while writer suspended", &sink);
                     status = "hang".into();
                 }
+            }
+            "queue_wal_fault" => {
+                // two writers queue behind the suspended leader; the group's WAL append then
+                // fails once: the leader AND the followers whose batches were in the group must
+                // get the error (nobody may be told Ok for a write that was not made)
+                // (w1 will lead the NEXT group, which contains w2: it is suspended before that
+                // group's WAL append, too)
+                ctl.arm("w1", "write_before_wal", 1);
+                for (i, name) in ["w1", "w2"].iter().enumerate() {
+                    let e3 = Arc::clone(&env);
+                    let k = 3 + i as i64;
+                    let rx = spawn_named(name, move || {
+                        if k == 3 {
+                            e3.put(k, 40);
+                        } else {
+                            e3.batch(&[k, 5], 30);
+                        }
+                    });
+                    ctl.wait_waiting(name, Duration::from_secs(3));
+                    helpers.push((name.to_string(), rx));
+                }
+                // the first leader finishes; w1 takes over with w2 in its group and parks
+                ctl.release("v");
+                if ctl.wait_parked("w1", Duration::from_secs(5)) {
+                    let _ = wait_quiescent(&db, Duration::from_secs(5));
+                    fs.set_fault(crate::simfs::FaultMode::At {
+                        index: fs.op_counter(),
+                        sticky: false,
+                    });
+                }
+                ctl.release("w1");
             }
             "readers" | "queue_and_readers" => {
                 if sc.script == "queue_and_readers" {
